@@ -19,7 +19,7 @@ func init() {
 		ID:         "C01",
 		Title:      "Parse then print preserves the meaning of every accepted module",
 		Decided:    "over every construct of the translator and printers: each grammar alternative is dispatched or rejected with an error, never a panic or silent skip (EXH, SIB); scaffold and fill translators agree on the IR type per AST node (PAIR); every syntax accessor of every handled AST node is read and used (ACC) and lands in the like-named IR field (FLOW); every IR field the parser allocates is filled (FLD-W) and every IR field is read by its printer (FLD-P), in grammar order (ORD), under the right opcode keyword (OPC); errors of the translator's own functions are returned, never dropped or turned into panics (ERR), and never accompanied by a module (NILMOD); no success return of a translator precedes an unconditional store to a field of the object being filled (EARLY-RET); a name the printer omits as default is the default the translator substitutes (ELIDE); a debug-info field is omitted only at the zero value the translator leaves for an absent field (MD-OMIT); the result type attached to a parsed getelementptr considers every index and keeps the address space (GEP-RES, GEP-VLEN); literal constants are built only by the literal readers (LIT-CTOR); quoted digit strings are names (ENC-CLASS).",
-		NotDecided: "that the printed text means the same to LLVM at the level of values (literal formatting is C09/C10/C11); crashes guarded by data conditions (e.g. `i1 -1`); the alias-typedef defect F2 (found by reading, no rule).",
+		NotDecided: "that the printed text means the same to LLVM at the level of values (literal formatting is C09/C10/C11); crashes guarded by data conditions.",
 		Rules:      []RuleUse{{Rule: "EXH"}, {Rule: "SIB"}, {Rule: "PAIR"}, {Rule: "ACC"}, {Rule: "FLOW"}, {Rule: "FLD-W"}, {Rule: "FLD-P"}, {Rule: "ORD"}, {Rule: "OPC"}, {Rule: "ERR"}, {Rule: "NILMOD"}, {Rule: "EARLY-RET"}, {Rule: "ELIDE"}, {Rule: "MD-OMIT"}, {Rule: "GEP-RES"}, {Rule: "GEP-VLEN"}, {Rule: "LIT-CTOR"}, {Rule: "ENC-CLASS"}, {Rule: "SCAF-NAME"}},
 	})
 	addProperty(&Property{
@@ -96,7 +96,7 @@ func init() {
 		ID:         "C04",
 		Title:      "Every reference in a parsed module is the object that defines it",
 		Decided:    "every definition object the parser allocates flows into a registering index or container, and nothing but the blockaddress placeholder is allocated outside that discipline (ALLOC, SSA value flow); the placeholder is queued, the queue is drained before the module is returned and the fixer installs a block of the function itself or fails (TODO); uses obtain the looked-up object itself, or an error (LK-2, LK-1); locals resolve only in their own function's table (SCOPE); every index is completely filled before any step consults it (PHASE); parent links are set at creation by the parser (PARENT) and by the builder API (CTOR-3).",
-		NotDecided: "identity along paths the flow rules do not model (objects copied by value); the alias-typedef defect F2 (a second type object named like its target), found by reading.",
+		NotDecided: "identity along paths the flow rules do not model (objects copied by value).",
 		Technique:  "static analysis: SSA value-flow of allocation sites to registering sinks over the VTA call graph, call-graph phase ordering, go/ast idiom rules (ALLOC, TODO, SCOPE, PHASE, PARENT, LK-1, LK-2)",
 		Rules: []RuleUse{{Rule: "ALLOC"}, {Rule: "IDX-ONCE"}, {Rule: "TODO"}, {Rule: "SCOPE"}, {Rule: "PHASE"}, {Rule: "PARENT"}, {Rule: "LK-1"}, {Rule: "LK-2"}, {Rule: "ENC-CLASS"}, {Rule: "SCAF-NAME"},
 			{Rule: "CTOR-3"}},
